@@ -2,7 +2,8 @@
 # Builds vsession for all 8 subsets of {history, autocomplete, help}, in parallel, each into its own target dir.
 # The build itself is part of C16: every feature combination must compile.
 export CARGO_NET_OFFLINE=true
-cd /verif/harness || exit 2
+ROOT="${VERIF_ROOT:-$(cd "$(dirname "${BASH_SOURCE[0]}")/.." && pwd)}"
+cd "$ROOT/harness" || exit 2
 pids=()
 fail=0
 for mask in 0 1 2 3 4 5 6 7; do
@@ -11,7 +12,7 @@ for mask in 0 1 2 3 4 5 6 7; do
   (( mask & 2 )) && feats+=(autocomplete)
   (( mask & 4 )) && feats+=(help)
   f=$(IFS=,; echo "${feats[*]}")
-  ( cargo build --release -p vsession --no-default-features --features "$f" --target-dir "/verif/harness/target/feat-$mask" >"/verif/harness/target/feat-$mask.log" 2>&1 ) &
+  ( cargo build --release -p vsession --no-default-features --features "$f" --target-dir "$ROOT/harness/target/feat-$mask" >"$ROOT/harness/target/feat-$mask.log" 2>&1 ) &
   pids+=($!)
 done
 for i in "${!pids[@]}"; do
